@@ -140,20 +140,37 @@ def examine(case):
     pre = "\n".join(S.prelude(spec))
     src1 = pre + "\nq = " + S.py_select(spec, "SQLLiteQuery")
     S.NESTED_ORDER[0] = random.Random(case["seed"] + 1)
+    parts = []
     try:
         pre2 = "\n".join(S.prelude(spec))
-        src2 = pre2 + "\nq = " + S.py_select(spec, "SQLLiteQuery", order_seed=case["seed"])
+        src2 = pre2 + "\nq = " + S.py_select(spec, "SQLLiteQuery", order_seed=case["seed"], parts_out=parts)
     finally:
         S.NESTED_ORDER[0] = None
+    # the statement assembled piecewise: other statements are derived from the same intermediate builder first (a star
+    # select, a filter, grouping and ordering of their own) — the statement itself must come out as if they did not exist
+    src3 = None
+    if parts and len(parts[0][1]) >= 2 and rng.random() < 0.35:
+        hd, calls_ = parts[0]
+        k = rng.randint(1, len(calls_) - 1)
+        if ".from_(" in hd + "".join(calls_[:k]):
+            tv = S.src_var(spec["from"][0])
+            src3 = (pre2 + "\np_ = " + hd + "".join(calls_[:k]) +
+                    "\nsib1_ = p_.select(%s.star)\nsib2_ = p_.where(%s.id == 1).groupby(%s.id).orderby(%s.id).select(%s.id)" % (tv, tv, tv, tv, tv) +
+                    "\nsib3_ = sib1_.select(%s.id).distinct()\nq = p_" % tv + "".join(calls_[k:]))
     case["recipe"] = src2 + "\n# reference: " + ref
     kinds = constructs(spec)
     res.nontrivial = len(kinds) >= 3
     res.key = struct_hash([ref])
     res.tags = ["c=" + k for k in sorted(kinds)] + (["c=x*(y/z)"] if muldiv else [])
     texts = []
-    for label, src in (("canonical order", src1), ("shuffled order", src2)):
+    for label, src in (("canonical order", src1), ("shuffled order", src2)) + ((("next to sibling statements", src3),) if src3 else ()):
         q = ns.ex(src)["q"]
         texts.append((label, src, str(q), q))
+    if src3 and texts[2][2] != texts[1][2]:
+        res.findings.append({"sig": {"kind": "depends-on-sibling-statements"},
+                             "what": "built next to sibling statements derived from the same intermediate builder the statement renders %s, alone %s\n%s"
+                                     % (texts[2][2], texts[1][2], src3)})
+        return res
     order_idx = [i for i, _ in spec["order"]]
     for dseed in case["dbs"]:
         con = db(dseed)
